@@ -90,14 +90,17 @@ def build_pools(vdir, rd, cpus, by):
     cases = []
     for c, p in cand.items():
         if p:
-            cases.append((c, "kind=dec cpu=%s" % c, "\n".join("%d %s" % (0x100, b + "00" * 8) for t, b in p)))
+            for fill in ("00", "ff"):
+                cases.append((c + "." + fill, "kind=dec cpu=%s" % c, "\n".join("%d %s" % (0x100, b + fill * 8) for t, b in p)))
     res = {o["case"]: o for o in C.conform_parallel(vdir, "codec", cases, rd, "pooldec", 10, nproc=C.NCPU)}
     pools = {}
     for c, p in cand.items():
-        r = res.get(c)
-        if not r or "res" not in r:
+        r, r2 = res.get(c + ".00"), res.get(c + ".ff")
+        if not r or "res" not in r or not r2 or "res" not in r2:
             continue
-        keep = [(t, b) for (t, b), (n, txt) in zip(p, r["res"]) if n == len(b) // 2]
+        # the decoder reads the instruction back with its assembled length, and its text does not depend on the
+        # bytes behind the instruction (decoders that look further are C08 findings, not listing defects)
+        keep = [(t, b) for (t, b), (n, txt), (n2, txt2) in zip(p, r["res"], r2["res"]) if n == len(b) // 2 and n2 == n and txt2 == txt]
         if len(keep) >= 3:
             pools[c] = keep
     return pools
